@@ -243,6 +243,8 @@ def run(repo: Repo, rep: Report, tier: str) -> None:
     _mixin(repo, rep)
     siblings.check_nested_builders(repo, rep, "R14.7")
     # the dialect caches are part of the "order of first use" state: same slot rules as C13 (R13.3 / R13.3b / R13.4 / R13.7)
+    if getattr(rep, "borrowed", False):
+        return  # another property borrows main-body rules only
     from . import c13
 
     class _Only:
@@ -277,6 +279,10 @@ def run(repo: Repo, rep: Report, tier: str) -> None:
     _sib2.check_own_method_tests(repo, rep, "R14.11")
     from ..core import siblings as _sib3
     _sib3.check_guard_mirror(repo, rep, "R15.10")
+    from ..core.report import Only as _OnlyX
+    from ..core import corpus as _corpusX
+    from ..core import helper_contracts as _hcx
+    _hcx.report(repo, rep, "R09.6", _hcx.dataclass_fields_contract(repo), "mashumaro.core.meta.code.builder::CodeBuilder.dataclass_fields")
 
 def _forwarding(repo: Repo, rep: Report) -> None:
     """R14.6: the flag lists used for re-dispatch forward every parameter under its own name."""
@@ -351,3 +357,6 @@ LEVEL_TEXT += _ADD6
 _ADD11 = ' Borrowed: R15.10.'
 EXPLANATION += _ADD11
 LEVEL_TEXT += _ADD11
+_ADD22 = ' Borrowed: R09.6 (field reflection is the same before and after @dataclass ran).'
+EXPLANATION += _ADD22
+LEVEL_TEXT += _ADD22
